@@ -449,7 +449,11 @@ def check_valid(case):
         if case.get('squeeze') and x.ndim == 1 and x.size > 1:
             nz = [i for i in range(x.size) if x[i] != 0.0 and i != int(np.argmax(np.abs(x)))]      # (the largest position stays: the piston takes it as xmax)
             j = nz[0] if nz else 0
+            ref = float(x[j])
             x[j] *= case['squeeze']
+            # ... and a ladder with the same mantissa in every half decade from 1e-2 to 1e-11.5 of that position (appended: the rest of the request stays)
+            mant = case['squeeze'] / 10.0 ** math.floor(math.log10(case['squeeze']))
+            x = np.concatenate([x, [ref * mant * 10.0 ** (-0.5 * k) for k in range(4, 24)]])      # (half-decade steps)
             o.label('point within 1e-2 .. 1e-9 of the origin')
         if fam == 'piston':
             if not (s.wv_pl < s.wv_el):
